@@ -108,22 +108,10 @@ Proof.
   - destruct (s_closed st); [inversion H; subst; split; assumption|].
     destruct (st_try_remove _ _ _) as [sto prev]. inversion H; subst.
     apply Unch; [intros id [Hx|Hx]; discriminate|sproj; reflexivity..].
-  - destruct (s_closed st); [inversion H; subst; split; assumption|]. sproj.
-    destruct (buf_send _ _ _) as [st2|] eqn:E.
-    + inversion H; subst. apply buf_send_frame in E. sproj.
-      destruct E as (_ & _ & Eb & Ep & Ed & Ec & _ & _ & _ & Ene).
-      split; [sproj; rewrite Ep; intros Hx; tauto|].
-      intros b id Hw. sproj. rewrite Ed, Eb. rewrite client_of_set in Hw.
-      destruct (N.eqb_spec b a) as [->|Hne].
-      * destruct Hw as [Hw|Hw]; [|discriminate Hw]. inversion Hw; subst.
-        right. apply in_or_app. right. left. reflexivity.
-      * unfold client_of in Hw. rewrite Ec in Hw. sproj.
-        destruct (W2 b id Hw) as [Hd|Hi]; [left; assumption|right; apply in_or_app; left; assumption].
-    + inversion H; subst. apply NW; sproj; reflexivity.
-  - destruct (s_closed st); [inversion H; subst; split; assumption|].
-    pose proof (conj W1 W2 : WaitInv st) as WI.
-    destruct (s_pc st) eqn:PC; inversion H; subst; try exact WI;
-      (apply Unch; [intros id [Hx|Hx]; discriminate|sproj; try reflexivity; assumption..]).
+  - destruct (s_closed st); inversion H; subst; [split; assumption|].
+    apply Unch; [intros id [Hx|Hx]; discriminate|sproj; reflexivity..].
+  - destruct (s_closed st); inversion H; subst; [split; assumption|].
+    apply Unch; [intros id [Hx|Hx]; discriminate|sproj; reflexivity..].
   - destruct (s_closed st); inversion H; subst; [split; assumption|].
     apply Unch; [intros id [Hx|Hx]; discriminate|sproj; reflexivity..].
   - inversion H; subst. split; assumption.
@@ -207,6 +195,19 @@ Proof.
       * not_waiting.
     + destruct (s_pc st) eqn:PC; try discriminate; inversion H; subst;
         (apply (WaitInv_client_same st); [assumption|same_fields..|not_waiting]).
+  - (* KWaitStart: the marker goes into the buffer *)
+    sproj. destruct (buf_send _ _ _) as [st2|] eqn:E.
+    + inversion H; subst. apply buf_send_frame in E. sproj.
+      destruct E as (_ & _ & Eb & Ep & Ed & Ec & _ & _ & _ & Ene).
+      apply (WaitInv_client_moves st); sproj; try assumption.
+      * rewrite Ep. tauto.
+      * intros id. rewrite Ed. auto.
+      * intros id Hi. left. rewrite Eb. apply in_or_app. auto.
+      * intros i [Hx|Hx]; [|discriminate Hx]. inversion Hx; subst. right. rewrite Eb. apply in_or_app. right. left. reflexivity.
+    + inversion H; subst. apply (WaitInv_client_same st); [assumption|same_fields..|not_waiting].
+  - (* KClearStart *)
+    destruct (s_pc st) eqn:PC; inversion H; subst;
+      (apply (WaitInv_client_same st); [assumption|sproj; try rewrite PC; reflexivity..|not_waiting]).
   - (* KWaitAfterSend *)
     destruct (s_closed st); inversion H; subst.
     + apply (WaitInv_client_same st); [assumption|same_fields..|not_waiting].
@@ -488,15 +489,10 @@ Proof.
     destruct (st_try_remove _ _ _) as [sto prev] eqn:TR.
     assert (Hs : s_store st = st_empty -> sto = st_empty) by (intros E; rewrite E, empty_try_remove in TR; inversion TR; reflexivity).
     inversion H; subst. apply (ClearEmpty_frame st); [assumption|sproj; reflexivity..|sproj; auto].
-  - destruct (s_closed st); [inversion H; subst; assumption|]. sproj.
-    destruct (buf_send _ _ _) as [st2|] eqn:E.
-    + inversion H; subst. apply buf_send_frame in E. sproj.
-      destruct E as (Es & Est & _ & Ep & _).
-      apply (ClearEmpty_frame st); [assumption|sproj; congruence..|sproj; intros X; rewrite Est; assumption].
-    + inversion H; subst. apply (ClearEmpty_frame st); [assumption|sproj; reflexivity..|sproj; auto].
-  - destruct (s_closed st); [inversion H; subst; assumption|].
-    destruct (s_pc st) eqn:PC; inversion H; subst; try assumption;
-      (apply (ClearEmpty_frame st); [assumption|sproj; try rewrite PC; reflexivity..|sproj; auto]).
+  - destruct (s_closed st); inversion H; subst; [assumption|].
+    apply (ClearEmpty_frame st); [assumption|sproj; reflexivity..|sproj; auto].
+  - destruct (s_closed st); inversion H; subst; [assumption|].
+    apply (ClearEmpty_frame st); [assumption|sproj; reflexivity..|sproj; auto].
   - destruct (s_closed st); inversion H; subst; [assumption|].
     apply (ClearEmpty_frame st); [assumption|sproj; reflexivity..|sproj; auto].
   - inversion H; subst. assumption.
@@ -530,6 +526,13 @@ Proof.
     + inversion H; subst. apply buf_send_frame in E. destruct E as (Es & Est & _ & Ep & _).
       apply (ClearEmpty_frame st); [assumption|sproj; congruence..|sproj; intros X; rewrite Est; assumption].
     + destruct (s_pc st) eqn:PC; try discriminate; inversion H; subst; ce_same CE st.
+  - sproj. destruct (buf_send _ _ _) as [st2|] eqn:E.
+    + inversion H; subst. apply buf_send_frame in E. sproj.
+      destruct E as (Es & Est & _ & Ep & _).
+      apply (ClearEmpty_frame st); [assumption|sproj; congruence..|sproj; intros X; rewrite Est; assumption].
+    + inversion H; subst. apply (ClearEmpty_frame st); [assumption|sproj; reflexivity..|sproj; auto].
+  - destruct (s_pc st) eqn:PC; inversion H; subst;
+      (apply (ClearEmpty_frame st); [assumption|sproj; try rewrite PC; reflexivity..|sproj; auto]).
   - destruct (s_closed st); inversion H; subst; ce_same CE st.
   - destruct (mem_N id (s_done st)); [|discriminate]. inversion H; subst. ce_same CE st.
   - destruct (mem_N id (s_done st)); [|discriminate]. destruct closing; inversion H; subst; ce_same CE st.
